@@ -7,7 +7,8 @@
     interpreter the harness runs (on the NumD instance) against the real functions on every check.  On a program passing
     the static check [prog_ok] (evaluated on every translated program on every run) the two coincide. *)
 From Coq Require Import QArith Qreals List Bool Arith Reals.
-From Dadi Require Import Base.Num Base.NumR Model.NDSweep Model.DSL Model.ProgSem Proofs.DSLProofs Proofs.ProgSemProofs.
+From Dadi Require Import Base.Num Base.NumR Model.NDSweep Model.DSL Model.ProgSem Proofs.NDSweepProofs Proofs.IntegrateRescale
+                         Proofs.FromPhiLin Proofs.DSLProofs Proofs.DSLInstance Proofs.ProgSemProofs Proofs.ProgSemScale.
 Import ListNotations.
 Local Open Scope R_scope.
 
@@ -70,10 +71,57 @@ Section C15Concrete.
     forall params params', firstn n params = firstn n params' -> (n <= length params)%nat -> (n <= length params')%nat ->
     runp p params = runp p params'.
   Proof. exact (run_prog_params_only ovf quad fuel pts grid0 ns tf). Qed.
+
+  (** ** whole-program scaling laws (close the C03 clause "rescale invariance of phi_1D / splits / admixture / sampling
+      inside whole models"): by induction over programs, from the per-block facts
+        phi_1D depends on (nu, gamma) through gamma nu and is proportional to nu theta0; split / admixture / pulse / remove /
+        reorder / sampling are linear in the density; the drivers are linear in (phi, theta0) and rescale-invariant. *)
+
+  (** linearity in theta0: the program with every theta0 multiplied by q returns q times the spectrum; no side condition *)
+  Theorem C15_theta0_linear : forall q, 0 < tf -> forall p params, prog_ok p KInit = true ->
+    runp (scale_theta q p) params = option_map (vscal (Q2R q)) (runp p params).
+  Proof. exact (fun q Htf => run_prog_theta0_linear q fuel tf Htf ovf quad pts grid0 ns). Qed.
+
+  (** change of the reference size: every size and time argument of every instruction multiplied by q > 0, every migration
+      rate, selection coefficient and theta0 divided by q, time-dependent arguments read at t / q: the same spectrum.
+      Hypothesis [ns_prog]: no pivot of a line system of a sweep of the program's integrations vanishes (the hypothesis
+      of the rescale theorems of C03, Proofs/IntegrateRescale.v) *)
+  Theorem C15_rescale_invariant : forall q, 0 < Q2R q -> 0 < tf -> forall p params,
+    prog_ok p KInit = true -> ns_prog grid0 (env_of_list params) p ->
+    runp (rescale_prog q p) params = runp p params.
+  Proof. exact (fun q Hq Htf => run_prog_rescale_invariant q Hq grid0 fuel tf Htf ovf quad pts ns). Qed.
+
+  (** the general law: two programs run at two parameter vectors whose instruction arguments are related by
+      sizes x c, times x c, rates / c, gammas / c, theta0 x k / c (same proportions, flags and branch decisions):
+      the second run's states are k times the first's *)
+  Theorem C15_scaling_law : forall c k, 0 < c -> 0 < tf -> forall p p' env env' s,
+    rel_prog c k grid0 env env' p p' -> on_grid0 grid0 s ->
+    csemp p' env' (sscale k s) = sscale k (csemp p env s).
+  Proof. exact (fun c k Hc Htf => csem_scaling c k Hc fuel tf Htf ovf quad pts grid0 ns). Qed.
 End C15Concrete.
+Print Assumptions C15_theta0_linear.
+Print Assumptions C15_rescale_invariant.
+Print Assumptions C15_scaling_law.
+
+(** the per-block facts used above *)
+Theorem C15_phi_1D_rescale : forall ovf quad xs c k nu th gamma h beta, c <> 0 ->
+  Equilibrium.phi_1D ovf quad xs (c * nu) (k * th / c) (gamma / c) h beta = vscal k (Equilibrium.phi_1D ovf quad xs nu th gamma h beta).
+Proof. exact phi_1D_rescale. Qed.
 Print Assumptions C15_exec_is_sem.
 Print Assumptions C15_concrete_H_T0.
 Print Assumptions C15_concrete_H_pulse0.
 Print Assumptions C15_run_prog_nesting_sound.
 Print Assumptions C15_run_prog_nesting2_sound.
 Print Assumptions C15_run_prog_params_only.
+
+(** non-vacuity of the static check: the translated programs of split_mig, IM_pre and bottlegrowth_split_mig_sel (both
+    branches) pass it and end in a spectrum; a pulse before any density exists, or a two-population integration of a
+    one-population density, does not *)
+Example C15_prog_ok_nonvacuous :
+  prog_ok DSLInstance.ex_split_mig KInit = true /\ ends_in_fs DSLInstance.ex_split_mig KInit = true /\
+  prog_ok DSLInstance.ex_IM_pre KInit = true /\ prog_ok DSLInstance.ex_bgsm_sel KInit = true /\
+  prog_ok (Step (IPulse 2 [0%nat] 1 [Const 0]) Done) KInit = false /\
+  prog_ok (Step IGrid (Step (IPhi1D (Const 1) (Const 1) (Const 0) (Const (1 # 2)) (Const 1))
+            (Step (IIntegrate (Var 0) [Const 1; Const 1] [[Const 0; Const 0]; [Const 0; Const 0]] [Const 0; Const 0]
+                              [Const (1 # 2); Const (1 # 2)] (Const 1) (Const 1) [false; false] [false; false]) Done))) KInit = false.
+Proof. exact ProgSemProofs.prog_ok_examples. Qed.
